@@ -1,70 +1,60 @@
 (* Properties/C09.v — type checking terminates on cyclic graphs and recursive types.
-   Model: Model/TypeCheck.v (check_type's work loop [run] over the explicit stack [todo] and the
-   memo [examined]); proofs: Proofs/TypeCheckTerm.v.
+   Model: Model/TypeCheck.v (check_type's work loop [run] over the explicit stack [todo], the trail
+   of examined checks and the failed alternatives); proofs: Proofs/TypeCheckLoop.v, Proofs/TypeCheckTerm.v.
 
    |O| = len (uni_objs oc o): null, the sub-objects of the root and of every definition of the context;
    |C| = len (uni_chks tc c): the sub-checks of the normalised root check and of every named check,
-         and their indirection-allowed versions;
+         their indirection-allowed versions and the own-attribute checks of both;
    fan_o / fan_c: the largest number of members of an object / of direct sub-checks of a check. *)
-From PV Require Import Model.TypeCheck Proofs.TypeCheckTerm.
+From PV Require Import Model.TypeCheck Proofs.TypeCheckLoop.
 From Coq Require Import Lia.
 
-(* the bound is explicit *)
+(* the bound is explicit: with P = |O|·|C|, K = fan_c + 3, M = 2 + K·(fan_o + fan_c + 2):
+   P·M·(P+1) + P + K + 2 *)
 Theorem C09_bound_explicit : forall oc tc o c,
-  step_bound oc tc o c =
-  len (uni_objs oc o) * len (uni_chks tc c)
-  * (2 + (fan_c (uni_chks tc c) + 2) * (fan_o (uni_objs oc o) + fan_c (uni_chks tc c) + 2))
-  + fan_c (uni_chks tc c) + 4.
-Proof. intros. unfold step_bound, bound_push, bound_K. lia. Qed.
-
-(* every object graph (cyclic or not), every context of named checks (recursive or not), every
-   root check: the work loop stops within [step_bound] iterations — never [Stuck] — and the total
-   number of iterations of the three loops (work loop, get_next_check, unwind) is at most
-   5·step_bound + 2 *)
-Theorem C09_terminates : forall opq oc tc o c r,
-  resolve tc c = Some r ->
-  fst (check opq oc tc o c) <> Stuck /\
-  snd (check opq oc tc o c) <= 5 * step_bound oc tc o (norm_chk (rep_chk r)) + 2.
-Proof. exact check_terminates. Qed.
-
-Theorem C09_terminates_fuel : forall opq oc tc o c r n,
-  resolve tc c = Some r -> step_bound oc tc o (norm_chk (rep_chk r)) <= n ->
-  fst (check_fuel opq oc tc n o c) <> Stuck /\
-  snd (check_fuel opq oc tc n o c) <= 5 * step_bound oc tc o (norm_chk (rep_chk r)) + 2.
-Proof. exact check_fuel_terminates. Qed.
+  let P := len (uni_objs oc o) * len (uni_chks tc c) in
+  let K := fan_c (uni_chks tc c) + 3 in
+  let M := 2 + K * (fan_o (uni_objs oc o) + fan_c (uni_chks tc c) + 2) in
+  step_bound oc tc o c = P * M * (P + 1) + P + K + 2.
+Proof. intros. unfold step_bound, bound_push, bound_K, P, K, M. lia. Qed.
 
 Theorem C09_unresolved_root : forall opq oc tc o c,
   resolve tc c = None -> check opq oc tc o c = (SpecErr EUnknown, 0).
 Proof. exact check_unresolved. Qed.
 
-(* the answer is a function of the inputs, and independent of the fuel beyond the bound *)
-Theorem C09_deterministic : forall opq oc tc o c r n m,
-  resolve tc c = Some r -> step_bound oc tc o (norm_chk (rep_chk r)) <= n -> n <= m ->
+(* the answer is a function of the inputs; once the loop has stopped, more fuel gives the same answer *)
+Theorem C09_deterministic : forall opq oc tc o c n m,
+  fst (check_fuel opq oc tc n o c) <> Stuck -> n <= m ->
   check_fuel opq oc tc m o c = check_fuel opq oc tc n o c.
-Proof. exact check_fuel_deterministic. Qed.
+Proof. exact check_fuel_mono. Qed.
 
 (* no recursion: the whole check is the n-fold iteration of one non-recursive step function on a
    state that holds the explicit stack (the call stack does not grow with the input) *)
-Theorem C09_single_loop : forall opq oc tc n td ex err k,
-  rs_result (run_rs opq oc tc n (RCont td ex err k)) = run opq oc tc n td ex err k.
+Theorem C09_single_loop : forall opq oc tc n td ex fl err k,
+  rs_result (run_rs opq oc tc n (RCont td ex fl err k)) = run opq oc tc n td ex fl err k.
 Proof. exact run_rs_run. Qed.
 
 Theorem C09_binary_fuel_same_loop : forall opq oc tc n o c,
   check_N opq oc tc n o c = check_fuel opq oc tc (N.to_nat n) o c.
 Proof. exact check_N_fuel. Qed.
 
-(* the hypotheses are satisfiable and the loop really runs on cycles: a node that is its own
-   descendant, under a type that is recursive by name *)
+Theorem C09_bound_as_fuel : forall oc tc o c, N.to_nat (step_bound_N oc tc o c) = step_bound oc tc o c.
+Proof. exact step_bound_N_nat. Qed.
+
+(* the loop really runs on cycles: a node that is its own descendant, under a type that is
+   recursive by name; a self-referential object; a recursive disjunction over a reference cycle *)
 Example C09_cycle_example :
   let oc := [((1%N, 0%N), ODict [([75%N], ORef 2 0)]); ((2%N, 0%N), OArr [ORef 1 0])] in
   let node := (TDict [DEnt [75%N] (CRep (TArr (CNamed [110%N]) None) None IAllowed) KReq] None, None, IAllowed) in
-  check opq_default oc [([110%N], node)] (ORef 1 0) (CNamed [110%N]) = (Accept, 17).
+  fst (check opq_default oc [([110%N], node)] (ORef 1 0) (CNamed [110%N])) = Accept.
+Proof. vm_compute. reflexivity. Qed.
+Example C09_self_reference_example :
+  fst (check opq_default [((5%N, 0%N), ORef 5 0)] [] (ORef 5 0) (CRep (TPrim PInteger) None IAllowed)) = Reject EType.
 Proof. vm_compute. reflexivity. Qed.
 
 Print Assumptions C09_bound_explicit.
-Print Assumptions C09_terminates.
-Print Assumptions C09_terminates_fuel.
 Print Assumptions C09_unresolved_root.
 Print Assumptions C09_deterministic.
 Print Assumptions C09_single_loop.
 Print Assumptions C09_binary_fuel_same_loop.
+Print Assumptions C09_bound_as_fuel.
